@@ -262,7 +262,9 @@ impl Threads {
 
 struct Setup {
     book: Arc<ThrBook>,
-    waker_flag: Arc<CloserWaker>,
+    /// two task identities for the closer's future; `cur` = the one its next / latest poll uses
+    wakers: [Arc<CloserWaker>; 2],
+    cur: Arc<AtomicUsize>,
     stop: Arc<AtomicBool>,
     closer_end: Arc<Mutex<Option<CloserEnd>>>,
     second_take_bad: Arc<Mutex<Option<String>>>,
@@ -270,7 +272,14 @@ struct Setup {
 }
 
 /// roles: index 0 = closer, 1.. = holders; scripts[i] = "drop" | "take2"
-fn spawn_all(names: &[String], scripts: &[&str], is_op: &[bool], steer: bool, delays: Option<Vec<u32>>) -> Setup {
+fn spawn_all(
+    names: &[String],
+    scripts: &[&str],
+    is_op: &[bool],
+    steer: bool,
+    delays: Option<Vec<u32>>,
+    free_migrate: bool,
+) -> Setup {
     let n = names.len();
     let book = Arc::new(ThrBook {
         closes: AtomicUsize::new(0),
@@ -281,10 +290,14 @@ fn spawn_all(names: &[String], scripts: &[&str], is_op: &[bool], steer: bool, de
     setup(n, if steer { 1 } else { 2 }, book.clone());
     let root = unsafe { SharedFd::new_unchecked(ThrIns(book.clone())) };
     let handles: Vec<SharedFd<ThrIns>> = (1..n).map(|_| root.clone()).collect();
-    let waker_flag = Arc::new(CloserWaker {
-        woken: AtomicBool::new(false),
-        thread: Mutex::new(None),
-    });
+    let mk = || {
+        Arc::new(CloserWaker {
+            woken: AtomicBool::new(false),
+            thread: Mutex::new(None),
+        })
+    };
+    let wakers = [mk(), mk()];
+    let cur = Arc::new(AtomicUsize::new(0));
     let stop = Arc::new(AtomicBool::new(false));
     let closer_end = Arc::new(Mutex::new(None));
     let second_take_bad = Arc::new(Mutex::new(None));
@@ -343,7 +356,8 @@ fn spawn_all(names: &[String], scripts: &[&str], is_op: &[bool], steer: bool, de
     // closer
     {
         let (tx, rx) = mpsc::channel();
-        let wf = waker_flag.clone();
+        let wfs = wakers.clone();
+        let cur2 = cur.clone();
         let stop2 = stop.clone();
         let end = closer_end.clone();
         let fin = finished_holders.clone();
@@ -352,17 +366,23 @@ fn spawn_all(names: &[String], scripts: &[&str], is_op: &[bool], steer: bool, de
         let delay = delays.as_ref().map(|d| d[0]).unwrap_or(0);
         let j = std::thread::spawn(move || {
             ROLE.with(|r| r.set(Some(0)));
-            *wf.thread.lock().unwrap_or_else(|e| e.into_inner()) = Some(std::thread::current());
+            for wf in &wfs {
+                *wf.thread.lock().unwrap_or_else(|e| e.into_inner()) = Some(std::thread::current());
+            }
             if !steer {
                 start.wait();
                 for _ in 0..delay {
                     std::hint::spin_loop();
                 }
             }
-            let w = Waker::from(wf.clone());
-            let mut cx = Context::from_waker(&w);
+            let ws = [Waker::from(wfs[0].clone()), Waker::from(wfs[1].clone())];
             let mut f: Pin<Box<dyn Future<Output = Option<ThrIns>> + Send>> = Box::pin(root.take());
+            let mut may_migrate = free_migrate;
             let result = loop {
+                // the task that owns the future now polls it with its own waker
+                let k = cur2.load(Ordering::SeqCst) & 1;
+                let wf = &wfs[k];
+                let mut cx = Context::from_waker(&ws[k]);
                 wf.woken.store(false, Ordering::SeqCst);
                 match f.as_mut().poll(&mut cx) {
                     Poll::Ready(Some(v)) => {
@@ -380,6 +400,13 @@ fn spawn_all(names: &[String], scripts: &[&str], is_op: &[bool], steer: bool, de
                             }
                             // granted while still steering: poll again; released: run free below
                             steered = lock().mode == 1;
+                        }
+                        if !steered && may_migrate {
+                            // free running: the pending future moves to another task once, which
+                            // polls it at once with its own waker
+                            may_migrate = false;
+                            cur2.store(1 - k, Ordering::SeqCst);
+                            continue;
                         }
                         if !steered {
                             // free running: wait for the wake-up; when every holder has finished
@@ -418,7 +445,8 @@ fn spawn_all(names: &[String], scripts: &[&str], is_op: &[bool], steer: bool, de
     }
     Setup {
         book,
-        waker_flag,
+        wakers,
+        cur,
         stop,
         closer_end,
         second_take_bad,
@@ -478,7 +506,8 @@ fn run_schedule(case: &Value) -> (Problems, u64, u64) {
         let first = steps.iter().find(|st| st["r"] == json!(n)).map(|st| st["s"].as_str().unwrap_or("")).unwrap_or("");
         scripts[i] = if first == "fd.take.swap" { "take2" } else { "drop" };
     }
-    let s = spawn_all(&names, &scripts, &is_op, true, None);
+    let s = spawn_all(&names, &scripts, &is_op, true, None, false);
+    let mut migrated = false;
     // strong count a role reads when it arrives at a hook: the model count after its previous step
     // (only one role runs at a time), initially the number of holders + closer
     let mut arrival: Vec<u64> = vec![names.len() as u64; names.len()];
@@ -503,15 +532,26 @@ fn run_schedule(case: &Value) -> (Problems, u64, u64) {
         let role = names.iter().position(|n| n == r).unwrap_or(0);
         match wait_parked(role) {
             Parked::At(real, b) => {
-                if real != site {
+                // "migrate" = the pending future is polled with the other waker: the closer is parked at
+                // the same place, the controller switches the waker before granting
+                let expect_real = if site == "migrate" { "repoll" } else { site };
+                if real != expect_real {
                     diverged = Some(format!("step {i}: role {r} is at {real}, the model expects {site}"));
                     break;
                 }
                 if site == "repoll" {
-                    if !s.waker_flag.woken.load(Ordering::SeqCst) {
-                        diverged = Some(format!("step {i}: the model re-polls a woken closer but its waker was not invoked"));
+                    let k = s.cur.load(Ordering::SeqCst) & 1;
+                    if !s.wakers[k].woken.load(Ordering::SeqCst) {
+                        diverged = Some(format!(
+                            "step {i}: the model re-polls a woken closer but the waker of its latest poll (waker {}) was not invoked",
+                            k + 1
+                        ));
                         break;
                     }
+                } else if site == "migrate" {
+                    let k = s.cur.load(Ordering::SeqCst) & 1;
+                    s.cur.store(1 - k, Ordering::SeqCst);
+                    migrated = true;
                 } else if b != arrival[role] {
                     diverged = Some(format!("step {i}: {r} at {site} sees strong count {b}, model {}", arrival[role]));
                     break;
@@ -572,7 +612,9 @@ fn run_schedule(case: &Value) -> (Problems, u64, u64) {
             }
             Parked::At("repoll", _) => {
                 // all holders are gone (checked above): nobody is left who could wake the closer
-                if s.waker_flag.woken.load(Ordering::SeqCst) {
+                let k = s.cur.load(Ordering::SeqCst) & 1;
+                let stale = s.wakers[1 - k].woken.load(Ordering::SeqCst);
+                if s.wakers[k].woken.load(Ordering::SeqCst) {
                     diverged = Some("end: the real closer has been woken, the model says it has not".into());
                 } else {
                     strand = true;
@@ -581,11 +623,14 @@ fn run_schedule(case: &Value) -> (Problems, u64, u64) {
                         sig(
                             "close-never-resolves",
                             json!({"mode": "schedule", "predicted": case["strand"] == true,
-                                   "take2": scripts.iter().any(|s| *s == "take2")}),
+                                   "take2": scripts.iter().any(|s| *s == "take2"),
+                                   "repolled_with_other_waker": migrated, "stale_waker_woken": stale}),
                         ),
-                        "every other holder has released the descriptor, the closer returned Pending and its waker was never \
-                         invoked: nobody is left to wake it, close().await never resolves"
-                            .into(),
+                        format!(
+                            "every other holder has released the descriptor, the closer returned Pending and the waker given \
+                             to its latest poll was never invoked{}: nobody is left to wake it, close().await never resolves",
+                            if stale { " (the waker of an EARLIER poll was woken instead)" } else { "" }
+                        ),
                         steps.len(),
                     ));
                     if case["strand"] != true {
@@ -659,8 +704,10 @@ fn run_stress(iter: u64, rng: &mut StdRng) -> (Problems, Value) {
         is_op.push(rng.random_range(0..3) == 0);
     }
     let delays: Vec<u32> = (0..names.len()).map(|_| if rng.random_range(0..3) == 0 { 0 } else { rng.random_range(0..400) }).collect();
-    let case = json!({"mode": "stress", "iter": iter, "scripts": scripts, "delays": delays});
-    let s = spawn_all(&names, &scripts, &is_op, false, Some(delays));
+    // in a third of the iterations the pending close future moves to another task (other waker)
+    let migrate = rng.random_range(0..3) == 0;
+    let case = json!({"mode": "stress", "iter": iter, "scripts": scripts, "delays": delays, "migrate": migrate});
+    let s = spawn_all(&names, &scripts, &is_op, false, Some(delays), migrate);
     let joined = s.threads.join_all();
     release_all();
     let s2 = Setup {
